@@ -6,6 +6,7 @@
 package xsync
 
 import (
+	"context"
 	"sync"
 
 	"github.com/AdguardTeam/AdGuardDNS/internal/dnsserver/zzverif/xsched"
@@ -352,4 +353,54 @@ func (o *Once) Do(f func()) {
 		o.running = false
 	}()
 	f()
+}
+
+// Semaphore is a modelled counting semaphore with the method set of golibs'
+// syncutil.Semaphore; the instrumenter substitutes it for
+// syncutil.NewChanSemaphore, whose blocking channel send the scheduler cannot
+// see.
+type Semaphore struct {
+	real chan struct{}
+	n    int
+	cur  int
+}
+
+// NewSemaphore returns a semaphore with n slots.
+func NewSemaphore(n uint) *Semaphore {
+	return &Semaphore{real: make(chan struct{}, n), n: int(n)}
+}
+
+// Acquire takes a slot, waiting for one if necessary.
+func (m *Semaphore) Acquire(ctx context.Context) (err error) {
+	s := xsched.Cur()
+	if s == nil {
+		select {
+		case m.real <- struct{}{}:
+			return nil
+		case <-ctx.Done():
+			return ctx.Err()
+		}
+	}
+	s.Point("Semaphore.Acquire", func() bool { return m.cur < m.n })
+	if s.Aborted() {
+		return nil
+	}
+	m.cur++
+
+	return nil
+}
+
+// Release frees a slot.
+func (m *Semaphore) Release() {
+	s := xsched.Cur()
+	if s == nil {
+		<-m.real
+
+		return
+	}
+	s.Point("Semaphore.Release", nil)
+	if s.Aborted() {
+		return
+	}
+	m.cur--
 }
